@@ -241,7 +241,7 @@ def substitute(o, path, inst):
     return kw
 
 
-def strict_routes(ver, t, o, tmp):
+def strict_routes(ver, t, o, tmp, reads=True):
     import stix2
     rs = [("parse-text", lambda: stix2.parse(json.dumps(o), allow_custom=False)), ("parse-dict", lambda: stix2.parse(copy.deepcopy(o), allow_custom=False))]
     cls = cls_for(ver, t)
@@ -267,7 +267,8 @@ def strict_routes(ver, t, o, tmp):
             if not r:
                 raise ValueError("nothing returned")       # (not handing the content out is a refusal too)
             return r
-        if "id" in o:
+        if "id" in o and reads:
+            # (each of these routes writes a directory: at the thorough tier every fourth case takes them)
             for kind in ("store", "source"):
                 for op in ("get", "all_versions", "query"):
                     rs.append(("FileSystem%s(allow_custom=False).%s" % ("Store" if kind == "store" else "Source", op), lambda kind=kind, op=op: fs_read(kind, op)))
@@ -343,7 +344,7 @@ def wl_inject(ctx, rng, i):
         for site, section, oo in injections(ver, o, rng):
             case = {"version": ver, "type": t, "site": site, "section": section, "input": oo}
             # policy-independent precondition for clause (a): the injected thing is custom by the property's own list
-            for rname, fn in strict_routes(ver, t, oo, tmp):
+            for rname, fn in strict_routes(ver, t, oo, tmp, reads=(ctx.tier == "quick" or i % 4 == 0)):
                 if site == "custom-property-without-value":
                     break          # the object would not contain the property: only the flag clause is judged for this site
                 if ctx.tier == "quick" and n % 3 and rname not in ("parse-text", "constructor"):
